@@ -344,7 +344,7 @@ def run_check(pid, tier, seed, replay=None):
             samples=samples,
             exhaustive=bool(getattr(mod, "EXHAUSTIVE", {}).get(tier, False)),
             explanation=getattr(mod, "EXPLANATION", ""),
-            distribution=dict(kinds=dist, **extra),
+            distribution=dict({("module_" + k if k == "kinds" else k): v for k, v in extra.items()}, kinds=dist),
             tested_not_proved=getattr(mod, "TESTED_NOT_PROVED", []),
             stage_times=times,
         ),
